@@ -105,11 +105,31 @@ func child(args []string) {
 		stdin.ReadString('\n') // snapshot of the state before the first store
 	}
 	for k := from; k < to; k++ {
-		if err := d.StoreSignedVAA(mkVAA(h[k])); err != nil {
+		// read-your-writes inside the process: a lookup BEFORE the store (a miss, or the previous version -
+		// relayers poll for VAAs that have not reached quorum yet) and one right after the acknowledgement
+		v := mkVAA(h[k])
+		want, _ := v.Marshal()
+		prev := ""
+		for j := 0; j < k; j++ {
+			if h[j].ID == h[k].ID {
+				prev = expectVal(h[j])
+			}
+		}
+		pre, preErr := d.GetSignedVAABytes(idOf(h[k].ID))
+		switch {
+		case preErr == db.ErrVAANotFound && prev == "":
+		case preErr == nil && (fingerprint(pre) == prev || bytes.Equal(pre, want)): // previous version, or this store was in flight when the last process was killed
+		default:
+			say(fmt.Sprintf("READBACK-BAD before store %d: lookup returned err=%v, %d bytes; want the previous version or not-found", k, preErr, len(pre)))
+		}
+		if err := d.StoreSignedVAA(v); err != nil {
 			say(fmt.Sprintf("STOREERR %d %v", k, err))
 			os.Exit(4)
 		}
 		say(fmt.Sprintf("ACK %d", k))
+		if got, err := d.GetSignedVAABytes(idOf(h[k].ID)); err != nil || !bytes.Equal(got, want) {
+			say(fmt.Sprintf("READBACK-BAD after store %d: lookup in the same process returned err=%v, %d bytes; want the %d bytes just acknowledged", k, err, len(got), len(want)))
+		}
 		if mode == "pause" {
 			stdin.ReadString('\n') // the parent copies the directory image, then lets us continue
 		}
@@ -357,6 +377,13 @@ func runChildAt(self, dir string, from, to int, mode string, bulk string, strace
 	raw = buf.String()
 	acks = from
 	for _, l := range strings.Split(raw, "\n") {
+		if strings.HasPrefix(l, "READBACK-BAD") {
+			what := "after"
+			if strings.Contains(l, "before store") {
+				what = "before"
+			}
+			r.Violation("a lookup in the storing process, "+what+" the acknowledged store, does not return the stored VAA", l, scenario{Name: "read-your-writes in the storing process", Steps: []string{fmt.Sprintf("child stores %d..%d of history %q, mode %s", from, to, bulk, mode)}, Acked: from})
+		}
 		if strings.HasPrefix(l, "ACK ") {
 			k, _ := strconv.Atoi(l[4:])
 			acks = k + 1
